@@ -160,6 +160,28 @@ theorem allocating_task_exists (o : Opts) (blobs : List Bytes) (h : blobs.flatte
     tasks o true none 0 blobs ≠ [] :=
   tasks_ne_nil_of_fresh o true blobs 0 h
 
+/-- **restore_any_task_order.**  The writer tasks of a file run on a thread pool; whichever order they run in (`ts` = any
+permutation of the file's tasks; the first one to run allocates), a non-empty file ends as the snapshot's content — under
+the statement's clause (verification on, or size/mtime differing).  With `restore_tasks_eq_segments` this discharges the
+former assumption "writes go to disjoint ranges, so the result is the concatenation of the segments whatever the thread
+order" (`tasks_pairwise`, `writeAt_comm`, `foldl_perm_comm`). -/
+theorem restore_any_task_order (o : Opts) (old : Option Bytes) (mtimeEq : Bool) (blobs : List Bytes) (ts : List Task)
+    (hp : ts.Perm (tasks o (matchingFile old blobs.flatten.length).isNone (matchingFile old blobs.flatten.length) 0 blobs))
+    (h0 : blobs.flatten.length ≠ 0)
+    (hcheck : o.verify = true ∨ mtimeEq = false ∨ (matchingFile old blobs.flatten.length).isSome = false) :
+    runTasks old (matchingFile old blobs.flatten.length).isNone blobs.flatten.length ts = some blobs.flatten := by
+  rw [runTasks_any_order o _ _ blobs old ts hp]
+  have h := restore_exact_tasks o old mtimeEq blobs hcheck
+  unfold restoreFileTasks at h
+  simp only [h0, if_false] at h
+  have h1 : ¬ (o.verify = false ∧ (matchingFile old blobs.flatten.length).isSome = true ∧ mtimeEq = true) := by
+    rintro ⟨a, b, c⟩
+    rcases hcheck with h | h | h
+    · rw [h] at a; cases a
+    · rw [h] at c; cases c
+    · rw [h] at b; cases b
+  simpa only [h1, if_false] using h
+
 /-- an all-zero file, sparse restore, no destination file: one hole task per blob, nothing is written, the file exists with
 the right length; without any task (`runTasks … []`) the destination would stay absent -/
 example : (tasks { verify := true, sparse := true } true none 0 [[0, 0], [0]]).map (·.hole) = [true, true] ∧
